@@ -378,7 +378,7 @@ func checkRowMapping(c *Ctx, rule string) {
 			}
 		}
 	}
-	c.Floor(rule, "insert_statements", nIns, 4)
+	c.Floor(rule, "insert_statements", nIns, 2) // one per SQL backend; the three SQLite inserts may share one statement
 	c.Floor(rule, "reading_statements", nSel, 6)
 }
 
